@@ -51,12 +51,21 @@ Corollaries (properties of the mirror transported to the code generated from the
   C16G_metadata_block                   `metadata_block`: last flag / type / 24-bit length, type 0 = `stream_info` + `Into::into`, otherwise
                                         `byte_take(length)` + `MetadataBlockData::new_unknown` (`C18G_unknown_new`), `MetadataBlock::from_parts`
   relB_bind, relB_shift, relB_beU, relB_byteTake   sequencing lemmas for byte-level parsers
-The chain stops here: `stream` is GENERATED (Gen/Parser.lean: `byte_tag`, the `while` loop as `whileP` with fuel `len + 1`,
-`many_till(frame, eof)` as `manyTillEof` with fuel `len + 1`, the `Stream` builders as checked readings) but has no theorem, so
-there is no `C16G_stream` / `C16G_total` / `C15G_stream_roundtrip` for whole streams (frame level: see the corollaries above).
-Missing for `C16G_stream`: `byteTagP` against `Repo.byteTag` (needs injectivity of `bytesToBits` on byte lists), `whileP` against
-`Repo.metadataLoop` and `manyTillEof` against `Repo.framesTillEof` (both: the fuel is never exhausted because `C16G_metadata_block` /
-`C16G_frame` give a strictly shorter rest), and the builder loops against the mirror's `PStream`.
+  C16G_stream                           `stream` on a whole byte string (hypothesis `IsBytes bs` only), relation `relStream` (same class; for
+                                        Ok all input is consumed and the image `psOfGen` of the generated `Stream` is the mirror's `PStream`):
+                                        `byteTag_rel` (`byte_tag("fLaC")`, with `bits_inj`), `C16G_metadata_block`, `md_loop` (the
+                                        `while !is_last` loop = `whileP` against `Repo.metadataLoop`), `many_frames` (`many_till(frame, eof)`
+                                        = `manyTillEof` against `Repo.framesTillEof`; the fuel is never exhausted), `stream_tail` with
+                                        the builder lemmas; about the mirror: `streamInfoChannels` (<= 8 channels) and
+                                        `metadataBlockConsumes` (an accepted block is shorter than its input; `suf_streamInfo`, `suf_beUint`,
+                                        `suf_byteTake`)
+  C16G_total                            PROPERTY C16 for the current source text: for every byte string (`IsBytes bs`, i.e. the Rust type
+                                        `&[u8]`) the generated `stream` never returns `none` (never panics), dev profile: transport of `C16_total`
+  C15G_stream_roundtrip                 PROPERTY C15 for the current source text: transport of `C15_stream_bits` - on the bytes of a written
+                                        stream the generated parser consumes everything and returns a stream whose image is
+                                        `PStream.ofStream s` (and `toStream? = some s`)
+No hypothesis other than the domain `IsBytes` remains.  Not stated: release-profile (`dbg = false`) versions - the mirror has no
+release reading; they need a congruence library "dev result /= none -> release result = dev result" over the prelude.
 One observation, kept inside `outer_loop`: the generated code has the step `part + 1` (`addU`) of
 `partition_len * (part + 1)`, which the mirror does not list as a panic site; it cannot overflow because
 `part < partition_count <= 2^15` (hypothesis `part + n < 2^64` of `outer_loop`, discharged in `C16G_residual_run`).
@@ -68,6 +77,67 @@ import FlacVerif.Lemmas.RepoRoundTripFrame
 import FlacVerif.Theorems.C15Gen
 import FlacVerif.Theorems.C15
 import FlacVerif.Theorems.C16
+
+namespace FlacVerif.Repo
+open PResult
+
+/-- an accepted STREAMINFO has at most 8 channels (same walk as `streamInfo_sat`, other predicate) -/
+theorem streamInfo_chan_sat (i : Bits) : (streamInfo i).Sat (fun r => r.1.channels ≤ 8) := by
+  unfold streamInfo
+  refine Sat.bind (beUint_sat 2 i) ?_; rintro ⟨minBlock, i1⟩ _
+  refine Sat.bind (beUint_sat 2 i1) ?_; rintro ⟨maxBlock, i2⟩ _
+  refine Sat.bind (beUint_sat 3 i2) ?_; rintro ⟨minFrame, i3⟩ _
+  refine Sat.bind (beUint_sat 3 i3) ?_; rintro ⟨maxFrame, i4⟩ _
+  refine Sat.bind (takeBits_sat 64 20 i4 (by decide)) ?_; rintro ⟨sr, j1⟩ _
+  refine Sat.bind (takeBits_sat 64 3 j1 (by decide)) ?_; rintro ⟨ch, j2⟩ hch
+  refine Sat.bind (takeBits_sat 64 5 j2 (by decide)) ?_; rintro ⟨bps, j3⟩ hbps
+  refine Sat.bind (takeBits_sat 64 36 j3 (by decide)) ?_; rintro ⟨total, j4⟩ _
+  dsimp only at hch hbps ⊢
+  refine Sat.bind (uadd_sat 64 _ ch 1 (by omega)) ?_; intro channels _
+  refine Sat.bind (uadd_sat 64 _ bps 1 (by omega)) ?_; intro bitsPerSample _
+  refine Sat.bind (byteTake_sat 16 _) ?_; rintro ⟨md5, i5⟩ ⟨hmd5, _⟩
+  dsimp only at hmd5 ⊢
+  split
+  · trivial
+  · split
+    · trivial
+    · rename_i hc
+      split
+      · trivial
+      · split
+        · trivial
+        · refine Sat.bind (passert_sat _ _ (by simp [hmd5])) ?_
+          intro _ _
+          split
+          · trivial
+          · split
+            · trivial
+            · split
+              · trivial
+              · split
+                · trivial
+                · simp only [sat_pure]
+                  omega
+
+theorem metadataBlock_chan_sat (i : Bits) :
+    (metadataBlock i).Sat (fun r => match r.1.2 with
+      | .streamInfo s => s.channels ≤ 8
+      | .unknown _ => True) := by
+  unfold metadataBlock
+  refine Sat.bind (beUint_sat 1 i) ?_; rintro ⟨first, i1⟩ _
+  dsimp only
+  refine Sat.bind (beUint_sat 3 i1) ?_; rintro ⟨length, i2⟩ _
+  dsimp only
+  split
+  · refine Sat.bind (streamInfo_chan_sat i2) ?_
+    rintro ⟨info, i3⟩ hi
+    exact hi
+  · refine Sat.bind (byteTake_sat length i2) ?_
+    rintro ⟨blob, i3⟩ _
+    dsimp only
+    split <;> trivial
+
+end FlacVerif.Repo
 
 namespace FlacVerif.C16Gen
 open FlacVerif FlacVerif.Repo FlacVerif.Gen.Parser
@@ -2066,6 +2136,412 @@ theorem C16G_metadata_block (bs : List Nat) (hb : IsBytes bs) :
     · simp only [e1, e2]; simp [relB]
     · simp only [e1, e2]; simp [relB]
 
+/-! ### `stream` -/
+
+/-- hand-model image of a generated `Stream`: the mirror's `PStream` (the last-block flags are not part of it) -/
+def psOfGen (g : Gen.Writer.Stream) : PStream :=
+  { info := (match g.stream_info.data with
+      | .StreamInfo s => s
+      | .Unknown _ _ => StreamInfo.empty 0 0 0),
+    metadata := g.metadata.map fun m => (mbOfGen m).2,
+    frames := g.frames.map frOfGen }
+
+theorem loopP_pure {α σ : Type} (f : σ → α → σ) (l : List α) : ∀ s : σ,
+    (loopP l s fun x s => okP (f s x)) = okP (l.foldl f s) := by
+  induction l with
+  | nil => intro s; rfl
+  | cons a l ih => intro s; simp only [loopP, bindP_okP, List.foldl_cons, ih]
+
+theorem map_dropLast_replace {α β : Type} (f : α → β) : ∀ (l : List α) (x y : α), l.getLast? = some x → f y = f x →
+    (l.dropLast ++ [y]).map f = l.map f := by
+  intro l
+  induction l with
+  | nil => intro x y h; simp at h
+  | cons a t ih =>
+    intro x y h hf
+    cases t with
+    | nil =>
+      simp only [List.getLast?_singleton, Option.some.injEq] at h
+      subst h
+      simp [hf]
+    | cons b t' =>
+      have h' : (b :: t').getLast? = some x := by simpa [List.getLast?_cons_cons] using h
+      have := ih x y h' hf
+      simp only [List.dropLast_cons₂, List.cons_append, List.map_cons] at this ⊢
+      rw [this]
+
+theorem add_block_ps (s : Gen.Writer.Stream) (m : Gen.Writer.MetadataBlockData) :
+    psOfGen (Stream_add_metadata_block s m) =
+      { psOfGen s with metadata := (psOfGen s).metadata ++ [(mbOfGen ⟨true, m⟩).2] } := by
+  unfold Stream_add_metadata_block psOfGen
+  cases h : s.metadata.getLast? with
+  | none => simp [h]
+  | some x =>
+    have := map_dropLast_replace (fun m => (mbOfGen m).2) s.metadata x { x with is_last := false } h rfl
+    simp only [h, List.map_append, List.map_cons, List.map_nil] at this ⊢
+    rw [this]
+
+theorem add_blocks_ps (l : List Gen.Writer.MetadataBlock) : ∀ s : Gen.Writer.Stream,
+    psOfGen (l.foldl (fun s b => Stream_add_metadata_block s b.data) s) =
+      { psOfGen s with metadata := (psOfGen s).metadata ++ l.map fun b => (mbOfGen b).2 } := by
+  induction l with
+  | nil => intro s; simp
+  | cons b l ih =>
+    intro s
+    simp only [List.foldl_cons, ih, add_block_ps, List.map_cons, List.append_assoc, List.singleton_append]
+    simp [mbOfGen]
+
+theorem push_frames_ps (l : List Gen.Writer.Frame) : ∀ s : Gen.Writer.Stream,
+    psOfGen (l.foldl Stream_push_frame s) = { psOfGen s with frames := (psOfGen s).frames ++ l.map frOfGen } := by
+  induction l with
+  | nil => intro s; simp
+  | cons f l ih =>
+    intro s
+    simp only [List.foldl_cons, ih]
+    simp [psOfGen, Stream_push_frame]
+
+theorem bits_inj {x y : List Nat} (hx : IsBytes x) (hy : IsBytes y) (h : bytesToBits x = bytesToBits y) : x = y := by
+  have hl : x.length = y.length := by
+    have := congrArg List.length h
+    rw [Repo.bytesToBits_length, Repo.bytesToBits_length] at this
+    omega
+  have e1 := Repo.bitsToBytes_bytesToBits x [] hx
+  have e2 := Repo.bitsToBytes_bytesToBits y [] hy
+  rw [← e1, ← e2, h, hl]
+
+/-- `byte_tag(t)` against the mirror's `byteTag` -/
+theorem byteTag_rel (t bs : List Nat) (ht : IsBytes t) (hb : IsBytes bs) :
+    relB (fun (_ : List Nat) => ()) bs (byteTagP t bs) (Repo.byteTag t (bytesToBits bs)) := by
+  unfold byteTagP Repo.byteTag
+  simp only [Repo.bytesToBits_length]
+  have hmin : min (8 * t.length) (8 * bs.length) = 8 * min t.length bs.length := by omega
+  have h1 : (bytesToBits bs).take (8 * min t.length bs.length) = bytesToBits (bs.take (min t.length bs.length)) :=
+    take_bits bs _ (Nat.min_le_right _ _)
+  have h2 : (bytesToBits t).take (8 * min t.length bs.length) = bytesToBits (t.take (min t.length bs.length)) :=
+    take_bits t _ (Nat.min_le_left _ _)
+  rw [hmin, h1, h2]
+  by_cases hne : bs.take (min t.length bs.length) = t.take (min t.length bs.length)
+  · have hb' : bytesToBits (bs.take (min t.length bs.length)) = bytesToBits (t.take (min t.length bs.length)) := by rw [hne]
+    simp only [hne, ne_eq, not_true_eq_false, if_false]
+    by_cases hl : bs.length < t.length
+    · have hl' : 8 * bs.length < 8 * t.length := by omega
+      simp [hl, hl', relB]
+    · have hl' : ¬ 8 * bs.length < 8 * t.length := by omega
+      simp only [hl, hl', if_false]
+      exact ⟨t.length, _, by omega, rfl, rfl, by rw [drop_bits]⟩
+  · have hb' : ¬ bytesToBits (bs.take (min t.length bs.length)) = bytesToBits (t.take (min t.length bs.length)) :=
+      fun h => hne (bits_inj (hb.take _) (ht.take _) h)
+    simp [hne, hb', relB, errP]
+
+/-- (proved below, `metadataBlockConsumes`) an accepted metadata block of the mirror is shorter than its input (it consumes at
+least the 4 header bytes); this is what makes the `else .error true` branch of `Repo.metadataLoop` unreachable and the fuel
+of the generated `while` loop sufficient -/
+def MetadataBlockConsumes : Prop :=
+  ∀ (i : Bits) (v : Bool × MetaData) (r : Bits), metadataBlock i = .ok (v, r) → r.length < i.length
+
+/-- (proved below, `streamInfoChannels`) an accepted STREAMINFO block has a channel count that fits `usize` (in fact at most 8) -/
+def StreamInfoChannels : Prop :=
+  ∀ (i : Bits) (b : Bool) (info : StreamInfo) (r : Bits), metadataBlock i = .ok ((b, .streamInfo info), r) → info.channels < 2 ^ 64
+
+theorem streamInfoChannels : StreamInfoChannels := by
+  intro i b info r h
+  have := Repo.metadataBlock_chan_sat i
+  rw [h] at this
+  have h8 : info.channels ≤ 8 := this
+  omega
+
+/-! ### the mirror's metadata block consumes input (`MetadataBlockConsumes`) -/
+
+theorem Suf.of_drop {α : Type} {i : Bits} {m : Nat} (hm : m ≤ i.length) {x : PResult (α × Bits)} (h : Suf (i.drop m) x) :
+    Suf i x := by
+  intro v r hx
+  obtain ⟨m', hm', hr⟩ := h v r hx
+  rw [List.length_drop] at hm'
+  exact ⟨m + m', by omega, by rw [hr, List.drop_drop]⟩
+
+theorem suf_beUint (n : Nat) (i : Bits) : Suf i (beUint n i) := by
+  intro v r h
+  unfold beUint at h
+  split at h
+  · simp at h
+  · simp only [PResult.ok.injEq, Prod.mk.injEq] at h
+    exact ⟨8 * n, by omega, h.2.symm⟩
+
+theorem suf_byteTake (n : Nat) (i : Bits) : Suf i (Repo.byteTake n i) := by
+  intro v r h
+  unfold Repo.byteTake at h
+  split at h
+  · simp at h
+  · simp only [PResult.ok.injEq, Prod.mk.injEq] at h
+    exact ⟨8 * n, by omega, h.2.symm⟩
+
+theorem suf_streamInfo (i : Bits) : Suf i (streamInfo i) := by
+  unfold streamInfo
+  refine Suf.bind (suf_beUint _ _) (fun minBlock i1 => ?_)
+  refine Suf.bind (suf_beUint _ _) (fun maxBlock i2 => ?_)
+  refine Suf.bind (suf_beUint _ _) (fun minFrame i3 => ?_)
+  refine Suf.bind (suf_beUint _ _) (fun maxFrame i4 => ?_)
+  refine Suf.bind (suf_takeBits _ _ _) (fun sr j1 => ?_)
+  refine Suf.bind (suf_takeBits _ _ _) (fun ch j2 => ?_)
+  refine Suf.bind (suf_takeBits _ _ _) (fun bps j3 => ?_)
+  refine Suf.bind (suf_takeBits _ _ _) (fun total j4 => ?_)
+  refine Suf.bindO _ _ (fun channels => ?_)
+  refine Suf.bindO _ _ (fun bitsPerSample => ?_)
+  dsimp only
+  refine Suf.of_drop (m := j4.length % 8) (Nat.mod_le _ _) ?_
+  refine Suf.bind (suf_byteTake _ _) (fun md5 i5 => ?_)
+  dsimp only
+  split
+  · exact Suf.error _ _
+  · split
+    · exact Suf.error _ _
+    · split
+      · exact Suf.error _ _
+      · split
+        · exact Suf.error _ _
+        · refine Suf.bindO _ _ (fun _ => ?_)
+          split
+          · exact Suf.error _ _
+          · split
+            · exact Suf.error _ _
+            · split
+              · exact Suf.error _ _
+              · split
+                · exact Suf.error _ _
+                · exact Suf.ok_self _ _
+
+theorem metadataBlockConsumes : MetadataBlockConsumes := by
+  intro i v r h
+  unfold metadataBlock at h
+  cases h1 : beUint 1 i with
+  | ok p =>
+    obtain ⟨first, i1⟩ := p
+    rw [h1] at h
+    simp only [PResult.ok_bind] at h
+    have hb : i1 = i.drop 8 ∧ 8 ≤ i.length := by
+      unfold beUint at h1
+      split at h1
+      · simp at h1
+      · simp only [PResult.ok.injEq, Prod.mk.injEq] at h1
+        exact ⟨h1.2.symm, by omega⟩
+    have hs : Suf i1 (do
+        let (length, i) ← beUint 3 i1
+        if first % 128 = 0 then do
+          let (info, i) ← streamInfo i
+          pure ((decide (first / 128 ≠ 0), MetaData.streamInfo info), i)
+        else do
+          let (blob, i) ← Repo.byteTake length i
+          if first % 128 > 126 then PResult.error false else
+          pure ((decide (first / 128 ≠ 0), MetaData.unknown ⟨first % 128, blob⟩), i)) := by
+      refine Suf.bind (suf_beUint _ _) (fun length i2 => ?_)
+      dsimp only
+      split
+      · exact Suf.bind (suf_streamInfo _) (fun info i3 => Suf.ok_self _ _)
+      · refine Suf.bind (suf_byteTake _ _) (fun blob i3 => ?_)
+        dsimp only
+        split
+        · exact Suf.error _ _
+        · exact Suf.ok_self _ _
+    obtain ⟨m, hm, hr⟩ := hs v r h
+    rw [hr, hb.1, List.length_drop, List.length_drop]
+    omega
+  | error e => rw [h1] at h; simp at h
+  | panic s => rw [h1] at h; simp at h
+
+/-- the condition and the body of the generated `while !is_last` loop of `stream` -/
+def mdCond (st : Bool × List Nat × List Gen.Writer.MetadataBlock) : Bool := !st.1
+def mdBody (st : Bool × List Nat × List Gen.Writer.MetadataBlock) : PM (Bool × List Nat × List Gen.Writer.MetadataBlock) :=
+  bindP (metadata_block true st.2.1) fun (x : List Nat × Gen.Writer.MetadataBlock) =>
+    okP (x.2.is_last, x.1, st.2.2 ++ [x.2])
+
+def relLoop (bs : List Nat) (acc : List Gen.Writer.MetadataBlock)
+    (g : PM (Bool × List Nat × List Gen.Writer.MetadataBlock)) (m : PResult (List MetaData × Bits)) : Prop :=
+  match m with
+  | .ok (ms, rb) => ∃ k gms, k ≤ bs.length ∧ g = some (.ok (true, bs.drop k, acc ++ gms)) ∧
+      gms.map (fun b => (mbOfGen b).2) = ms ∧ rb = bytesToBits (bs.drop k)
+  | .error true => g = some (.error .incomplete)
+  | .error false => g = some (.error .error)
+  | .panic _ => g = none
+
+theorem whileP_done (n : Nat) (st : Bool × List Nat × List Gen.Writer.MetadataBlock) (h : st.1 = true) :
+    whileP mdCond mdBody n st = okP st := by
+  cases n <;> simp [whileP, mdCond, h]
+
+theorem md_loop (hcons : MetadataBlockConsumes) (bs : List Nat) (hb : IsBytes bs) :
+    ∀ (fuel k : Nat) (acc : List Gen.Writer.MetadataBlock), k ≤ bs.length → (bs.drop k).length < fuel →
+      relLoop bs acc (whileP mdCond mdBody fuel (false, bs.drop k, acc)) (metadataLoop (bytesToBits (bs.drop k))) := by
+  intro fuel
+  induction fuel with
+  | zero => intro k acc _ h; omega
+  | succ n ih =>
+    intro k acc hk hfuel
+    rw [metadataLoop]
+    simp only [whileP, mdCond, Bool.not_false, if_true, mdBody]
+    have hm := relB_shift hk (C16G_metadata_block (bs.drop k) (hb.drop k))
+    rcases relB_elim hm with ⟨k2, gb, hk2, e1, e2⟩ | ⟨e1, e2⟩ | ⟨e1, e2⟩ | ⟨e1, s, e2⟩
+    · rw [e1, e2]
+      simp only [bindP_ok, bindP_okP]
+      have hlt := hcons _ _ _ e2
+      rw [Repo.bytesToBits_length, Repo.bytesToBits_length] at hlt
+      cases hl : gb.is_last with
+      | true =>
+        have : (mbOfGen gb).1 = true := hl
+        simp only [this, if_true]
+        rw [whileP_done n _ rfl]
+        exact ⟨k2, [gb], hk2, rfl, rfl, rfl⟩
+      | false =>
+        have : (mbOfGen gb).1 = false := hl
+        simp only [this, Bool.false_eq_true, if_false, Repo.bytesToBits_length]
+        have hlt' : 8 * (bs.drop k2).length < 8 * (bs.drop k).length := hlt
+        simp only [hlt', dite_true]
+        have := ih k2 (acc ++ [gb]) hk2 (by omega)
+        cases h3 : metadataLoop (bytesToBits (bs.drop k2)) with
+        | ok z =>
+          obtain ⟨ms, rb⟩ := z
+          rw [h3] at this
+          obtain ⟨k3, gms, hk3, g1, g2, g3⟩ := this
+          exact ⟨k3, gb :: gms, hk3, by rw [g1]; simp, by simp [g2], g3⟩
+        | error e => rw [h3] at this; cases e <;> exact this
+        | panic s => rw [h3] at this; exact this
+    · rw [e1, e2]; rfl
+    · rw [e1, e2]; rfl
+    · rw [e1, e2]; rfl
+
+/-- outcome relation for `many_till(frame, eof)`: the mirror returns the frames only (the rest is empty) -/
+def relFrames (acc : List Gen.Writer.Frame) (g : PM (List Nat × (List Gen.Writer.Frame × List Nat))) (m : PResult (List Frame)) : Prop :=
+  match m with
+  | .ok fs => ∃ gfs, g = some (.ok ([], (acc ++ gfs, []))) ∧ gfs.map frOfGen = fs
+  | .error true => g = some (.error .incomplete)
+  | .error false => g = some (.error .error)
+  | .panic _ => g = none
+
+theorem frame_run_eq (info : StreamInfo) (c : Bool) (bs : List Nat) :
+    frame_run true info c bs = Gen.Parser.frame true info c bs := rfl
+
+theorem many_frames (info : StreamInfo) (hch : info.channels < 2 ^ 64) (bs : List Nat) (hb : IsBytes bs) :
+    ∀ (fuel k : Nat) (acc : List Gen.Writer.Frame), k ≤ bs.length → (bs.drop k).length < fuel →
+      relFrames acc (manyTillEofAux (frame_run true info true) fuel (bs.drop k) acc)
+        (framesTillEof info (bytesToBits (bs.drop k))) := by
+  intro fuel
+  induction fuel with
+  | zero => intro k acc _ h; omega
+  | succ n ih =>
+    intro k acc hk hfuel
+    rw [framesTillEof]
+    simp only [manyTillEofAux, Repo.bytesToBits_length]
+    by_cases h0 : (bs.drop k).length = 0
+    · have h0' : 8 * (bs.drop k).length = 0 := by omega
+      have hnil : bs.drop k = [] := List.eq_nil_of_length_eq_zero h0
+      simp only [h0, h0', if_true]
+      exact ⟨[], by simp [hnil, okP], rfl⟩
+    · have h0' : ¬ 8 * (bs.drop k).length = 0 := by omega
+      simp only [h0, h0', if_false, frame_run_eq]
+      have hf := C16G_frame info true (bs.drop k) (hb.drop k) hch
+      rcases relB_elim hf with ⟨k1, gf, hk1, e1, e2⟩ | ⟨e1, e2⟩ | ⟨e1, e2⟩ | ⟨e1, s, e2⟩
+      · rw [e1, e2]
+        simp only [List.drop_drop, Repo.bytesToBits_length, List.length_drop]
+        rw [List.length_drop] at hk1 hfuel
+        by_cases hz : k1 = 0
+        · subst hz
+          have : ¬ 8 * (bs.length - (k + 0)) < 8 * (bs.length - k) := by simp
+          simp [this, relFrames, errP]
+        · have hlt : 8 * (bs.length - (k + k1)) < 8 * (bs.length - k) := by omega
+          have hne : ¬ bs.length - (k + k1) = bs.length - k := by omega
+          simp only [hlt, dite_true, hne, if_false]
+          have := ih (k + k1) (acc ++ [gf]) (by omega) (by rw [List.length_drop]; omega)
+          cases h3 : framesTillEof info (bytesToBits (bs.drop (k + k1))) with
+          | ok fs =>
+            rw [h3] at this
+            obtain ⟨gfs, g1, g2⟩ := this
+            exact ⟨gf :: gfs, by rw [g1]; simp, by simp [g2]⟩
+          | error e => rw [h3] at this; cases e <;> exact this
+          | panic s => rw [h3] at this; exact this
+      · rw [e1, e2]; rfl
+      · rw [e1, e2]; rfl
+      · rw [e1, e2]; rfl
+
+/-- outcome relation for `stream`: the mirror returns the parsed stream only (all input is consumed) -/
+def relStream (g : PM (List Nat × Gen.Writer.Stream)) (m : PResult PStream) : Prop :=
+  match m with
+  | .ok ps => ∃ gs, g = some (.ok ([], gs)) ∧ psOfGen gs = ps
+  | .error true => g = some (.error .incomplete)
+  | .error false => g = some (.error .error)
+  | .panic _ => g = none
+
+theorem isBytes_flac : IsBytes [102, 76, 97, 67] := by
+  intro b hb; simp at hb; omega
+
+/-- the tail of `stream` after the metadata blocks: `many_till(frame, eof)` and the `Stream` builders -/
+theorem stream_tail (info : StreamInfo) (hch : info.channels < 2 ^ 64) (bs : List Nat) (hb : IsBytes bs) (k : Nat)
+    (hk : k ≤ bs.length) (gms : List Gen.Writer.MetadataBlock) :
+    relStream
+      ((frame_pre true info true).bind fun _ =>
+        bindP (manyTillEof (frame_run true info true) (bs.drop k)) fun (x : List Nat × (List Gen.Writer.Frame × List Nat)) =>
+        bindP (loopP gms (Stream_with_stream_info info) fun mdblock stream =>
+            okP (Stream_add_metadata_block stream mdblock.data)) fun stream =>
+        bindP (loopP x.2.1 stream fun f stream => okP (Stream_push_frame stream f)) fun stream =>
+        okP (x.1, stream))
+      (do
+        let frames ← framesTillEof info (bytesToBits (bs.drop k))
+        pure { info := info, metadata := gms.map fun b => (mbOfGen b).2, frames := frames }) := by
+  have hf := many_frames info hch bs hb ((bs.drop k).length + 1) k [] hk (by omega)
+  unfold manyTillEof
+  simp only [frame_pre, Option.bind_some]
+  cases h : framesTillEof info (bytesToBits (bs.drop k)) with
+  | ok fs =>
+    rw [h] at hf
+    obtain ⟨gfs, g1, g2⟩ := hf
+    rw [g1]
+    simp only [List.nil_append, bindP_ok, PResult.ok_bind, PResult.pure_eq,
+      loopP_pure (fun s (b : Gen.Writer.MetadataBlock) => Stream_add_metadata_block s b.data),
+      loopP_pure Stream_push_frame, bindP_okP]
+    refine ⟨_, rfl, ?_⟩
+    rw [push_frames_ps, add_blocks_ps]
+    simp [psOfGen, Stream_with_stream_info, g2]
+  | error e => rw [h] at hf; cases e <;> simp only [relFrames] at hf <;> rw [hf] <;> rfl
+  | panic s => rw [h] at hf; simp only [relFrames] at hf; rw [hf]; rfl
+
+theorem C16G_stream (bs : List Nat) (hb : IsBytes bs) :
+    relStream (Gen.Parser.stream true bs) (Repo.stream (bytesToBits bs)) := by
+  unfold Gen.Parser.stream Repo.stream
+  have h1 := byteTag_rel [102, 76, 97, 67] bs isBytes_flac hb
+  rcases relB_elim h1 with ⟨k1, u, hk1, e1, e2⟩ | ⟨e1, e2⟩ | ⟨e1, e2⟩ | ⟨e1, s, e2⟩
+  · simp only [e1, e2, bindP_ok, PResult.ok_bind]
+    have h2 := relB_shift hk1 (C16G_metadata_block (bs.drop k1) (hb.drop k1))
+    rcases relB_elim h2 with ⟨k2, gb, hk2, f1, f2⟩ | ⟨f1, f2⟩ | ⟨f1, f2⟩ | ⟨f1, s, f2⟩
+    · simp only [f1, f2, bindP_ok, PResult.ok_bind]
+      obtain ⟨gl, gd⟩ := gb
+      cases gd with
+      | Unknown t d => simp [mbOfGen, bindO, errP, relStream]
+      | StreamInfo info =>
+        have hch : info.channels < 2 ^ 64 := streamInfoChannels _ gl info _ f2
+        simp only [mbOfGen, bindO]
+        cases gl with
+        | true =>
+          simp only [if_true, bindP_okP, PResult.ok_bind]
+          exact stream_tail info hch bs hb k2 hk2 []
+        | false =>
+          simp only [Bool.false_eq_true, if_false]
+          have hl := md_loop metadataBlockConsumes bs hb ((bs.drop k2).length + 1) k2 [] hk2 (by omega)
+          change relStream (bindP (bindP (whileP mdCond mdBody ((bs.drop k2).length + 1) (false, bs.drop k2, [])) _) _) _
+          cases h3 : metadataLoop (bytesToBits (bs.drop k2)) with
+          | ok z =>
+            obtain ⟨ms, rb⟩ := z
+            rw [h3] at hl
+            obtain ⟨k3, gms, hk3, g1, g2, g3⟩ := hl
+            rw [g1]
+            simp only [List.nil_append, bindP_ok, bindP_okP, PResult.ok_bind, g3]
+            rw [← g2]
+            exact stream_tail info hch bs hb k3 hk3 gms
+          | error e => rw [h3] at hl; cases e <;> simp only [relLoop] at hl <;> rw [hl] <;> rfl
+          | panic s => rw [h3] at hl; simp only [relLoop] at hl; rw [hl]; rfl
+    · simp only [f1, f2]; rfl
+    · simp only [f1, f2]; rfl
+    · simp only [f1, f2]; rfl
+  · simp only [e1, e2]; rfl
+  · simp only [e1, e2]; rfl
+  · simp only [e1, e2]; rfl
+
 /-! ### corollaries: the properties of the mirror hold of the code generated from the CURRENT source text -/
 
 theorem cls_ne_none {α : Type} {x : PResult (α × Bits)} (h : ∀ s, x ≠ .panic s) : cls x ≠ none := by
@@ -2114,6 +2590,33 @@ theorem C15G_frame_roundtrip (f : Frame) (info : StreamInfo) (c : Bool) (bs : Li
   rw [hbs, C15_frame_bits f info c fb k hbits hok hk] at h
   obtain ⟨n, g, _, e, hc, hr⟩ := h
   exact ⟨n, g, e, hc, hr.symm⟩
+
+/-- C16 ("the parser never panics") for the generated `stream`, dev profile, EVERY byte string: transport of `C16_total`
+along `C16G_stream`.  `IsBytes bs` is the Rust type of the input (`&[u8]`): the generated code works on `List Nat` and does not
+build the bound in; for elements >= 256 the mirror (which reads the BITS of the bytes) and the generated code (which
+also hands byte VALUES on, e.g. to `utf8_code` and the MD5 field) are not comparable. -/
+theorem C16G_total (bs : List Nat) (hb : IsBytes bs) :
+    Gen.Parser.stream true bs ≠ none := by
+  have h := C16G_stream bs hb
+  have hp : ∀ s, Repo.stream (bytesToBits bs) ≠ .panic s := C16_total bs hb
+  intro hn
+  rw [hn] at h
+  cases hm : Repo.stream (bytesToBits bs) with
+  | ok ps => rw [hm] at h; obtain ⟨gs, g1, _⟩ := h; simp at g1
+  | error e => rw [hm] at h; cases e <;> simp [relStream] at h
+  | panic s => exact hp s hm
+
+/-- C15 ("the parser inverts the writer") for the generated `stream`: on bytes whose bits are what `Stream::write` produced
+for `s`, the generated parser consumes everything and returns a stream whose hand-model image is `s` (transport of
+`C15_stream_bits`). -/
+theorem C15G_stream_roundtrip (s : Stream) (bs : List Nat)
+    (hb : IsBytes bs) (hbits : s.bits rfcCrc8 rfcCrc16 = some (bytesToBits bs)) (hok : Repo.StreamOk s) :
+    ∃ g, Gen.Parser.stream true bs = some (.ok ([], g)) ∧ psOfGen g = Repo.PStream.ofStream s ∧
+      (psOfGen g).toStream? = some s := by
+  have h := C16G_stream bs hb
+  rw [C15_stream_bits s (bytesToBits bs) hbits hok] at h
+  obtain ⟨g, g1, g2⟩ := h
+  exact ⟨g, g1, g2, by rw [g2]; exact Repo.PStream.ofStream_toStream s⟩
 
 /-- The hypothesis `IsBytes` is satisfiable on a non-trivial input: a complete frame header (sync, fixed blocking, block
 size 4096, 44.1 kHz, 2 channels, 16 bit, frame 0) followed by its CRC-8 slot. -/
